@@ -147,6 +147,17 @@ def mu_tfdz_longer(m, fr, fk):
     fr.tfdf.tfdz = m["tfdz"]
 
 
+def mu_tfdz_inplace(m, fr, fk):
+    """the caller keeps its own (mutable) buffer as data zone, extends it in place and assigns the same object again"""
+    buf = fr.tfdf.tfdz
+    if not isinstance(buf, bytearray):
+        buf = bytearray(buf)
+        fr.tfdf.tfdz = buf
+    buf += b"\x7a\x7b"
+    fr.tfdf.tfdz = buf
+    m["tfdz"] = bytes(buf)
+
+
 def mu_tfdz_same_len(m, fr, fk):
     m["tfdz"] = bytes(b ^ 0xFF for b in m["tfdz"])
     fr.tfdf.tfdz = m["tfdz"]
@@ -221,11 +232,11 @@ def mu_hdr_replace(m, fr, fk):
 
 MUTATORS = {
     "tfdf.tfdz=shorter": mu_tfdz_shorter, "tfdf.tfdz=longer": mu_tfdz_longer, "tfdf.tfdz=same-length": mu_tfdz_same_len,
-    "insert_zone=": mu_iz, "fecf=": mu_fecf, "op_ctrl_field=": mu_ocf, "header.vcf_count(_len)=": mu_vcf, "header.ids=": mu_ids,
+    "tfdf.tfdz=own-buffer-extended": mu_tfdz_inplace, "insert_zone=": mu_iz, "fecf=": mu_fecf, "op_ctrl_field=": mu_ocf, "header.vcf_count(_len)=": mu_vcf, "header.ids=": mu_ids,
     "header.flags=": mu_flags, "header.frame_len=": mu_frame_len, "tfdf.fhp_or_lvop=": mu_ptr, "tfdf.uslp_ident=": mu_upid,
     "tfdf.tfdz_contr_rules=": mu_rule, "tfdf=TransferFrameDataField(..)": mu_tfdf_replace, "header=Header(..)": mu_hdr_replace,
 }
-TRUNC_MUTATORS = ("tfdf.tfdz=shorter", "tfdf.tfdz=longer", "tfdf.tfdz=same-length", "header.ids=", "tfdf.uslp_ident=", "tfdf.tfdz_contr_rules=",
+TRUNC_MUTATORS = ("tfdf.tfdz=shorter", "tfdf.tfdz=longer", "tfdf.tfdz=same-length", "tfdf.tfdz=own-buffer-extended", "header.ids=", "tfdf.uslp_ident=", "tfdf.tfdz_contr_rules=",
                   "tfdf=TransferFrameDataField(..)", "header=Header(..)")
 OBSERVERS = ("len()", "pack(frame_type)", "pack()", "set_frame_len_in_header()", "tfdf.len()", "tfdf.pack()", "header.pack()", "header.len()")
 
